@@ -60,6 +60,39 @@ and handle1 = function
      | Ok NErr -> "E"
      | Ok (NI64 (v, e)) -> Printf.sprintf "I %s %d" (string_of_z v) (int_of_z e)
      | Ok (NF64 _) -> "F?")
+  | "xstr" :: siz :: ops ->
+    (match xcreate (z_of_string siz) with
+     | Oob i -> "OOB " ^ string_of_z i
+     | Fuel -> "FUEL"
+     | Ok x0 ->
+       let pre = Buffer.create 16 in
+       let rec go x = function
+         | [] -> Ok x
+         | o :: r ->
+           let arg = String.sub o 1 (String.length o - 1) in
+           let step = (match o.[0] with
+             | 'c' -> xcat x (bytes_of_hex arg)
+             | 'u' -> xunshift x (bytes_of_hex arg)
+             | 's' -> xshift x (z_of_string arg)
+             | 'p' -> xpop x (z_of_string arg)
+             | _ ->
+               let k = String.index arg ':' in
+               let pos = z_of_string (String.sub arg 0 k) and d = bytes_of_hex (String.sub arg (k + 1) (String.length arg - k - 1)) in
+               (match xinsert x pos d with
+                | Ok (Some x') -> Ok x'
+                | Ok None -> Buffer.add_string pre "oob "; Ok x
+                | Oob i -> Oob i | Fuel -> Fuel)) in
+           (match step with Ok x' -> go x' r | e -> e) in
+       (match go x0 ops with
+        | Oob i -> "OOB " ^ string_of_z i
+        | Fuel -> "FUEL"
+        | Ok x ->
+          let n = int_of_z x.x_size in
+          (match cells n x.x_buf with
+           | None -> "UNINIT"
+           | Some b ->
+             let rec slen k = function [] -> k | c :: r -> if c = Z0 then k else slen (k + 1) r in
+             Printf.sprintf "%s%d %d %s" (Buffer.contents pre) n (slen 0 b) (hex_of_bytes b))))
   | ["facts"] ->
     Printf.sprintf "ptr_tilde_strict=%b hex2bin_checks_max=%b atoi2_inf_bounded=%b num_clears_errno=%b num_big_as_double=%b"
       fact_ptr_tilde_strict fact_hex2bin_checks_max fact_atoi2_inf_bounded fact_num_clears_errno fact_num_big_as_double
